@@ -206,7 +206,7 @@ type def struct {
 	spell int  // 0: all on one line; 1: destination on the next line; 2: title on the next line; 3: both; 4: destination in <>; 5: title in '' on the next line
 }
 
-func buildDoc(defs []def, use string, useForm, useKind int, usePos int, useCont int) string {
+func buildDoc(defs []def, use string, useForm, useKind int, usePos int, useCont int, usePlace int, noFinalNL bool) string {
 	var parts []string
 	renderDef := func(d def) string {
 		// the spec allows white space including one line ending after the colon
@@ -248,13 +248,26 @@ func buildDoc(defs []def, use string, useForm, useKind int, usePos int, useCont 
 		u = "[" + use + "]"
 	case 1:
 		u = "[" + use + "][]"
-	default:
+	case 2:
 		u = "[zzz][" + use + "]"
+	default:
+		// a full reference may have empty link text
+		u = "[][" + use + "]"
 	}
 	if useKind == 1 {
 		u = "!" + u
 	}
-	u = "q " + u + " q"
+	// the use sits between words, ends its line, or is the content of a heading
+	switch usePlace {
+	case 1:
+		u = "q " + u
+	case 2:
+		u = "# " + u
+	case 3:
+		u = "## q " + u + " ##"
+	default:
+		u = "q " + u + " q"
+	}
 	// the use may sit in a container too (its label may span lines there)
 	switch useCont {
 	case 1:
@@ -293,7 +306,9 @@ func buildDoc(defs []def, use string, useForm, useKind int, usePos int, useCont 
 			sb.WriteString(seps[i])
 		}
 	}
-	sb.WriteString("\n")
+	if !noFinalNL {
+		sb.WriteString("\n")
+	}
 	return sb.String()
 }
 
@@ -323,7 +338,11 @@ func propResolve(c harness.Case) harness.Result {
 			return res
 		}
 	}
-	doc := buildDoc(defs, use, c.I["form"], c.I["kind"], c.I["pos"], c.I["usecont"])
+	place := c.I["place"]
+	if strings.ContainsAny(use, "\r\n") && place >= 2 {
+		place = 0 // a label that spans lines cannot sit in an ATX heading
+	}
+	doc := buildDoc(defs, use, c.I["form"], c.I["kind"], c.I["pos"], c.I["usecont"], place, c.I["nofinalnl"] == 1)
 	// the document's own line endings (those the generator wrote as LF) in one of the three styles
 	switch c.I["eol"] {
 	case 1:
@@ -440,7 +459,11 @@ func genResolve(t *rapid.T) harness.Case {
 		c.SetI("eol", e)
 	}
 	c.SetS("use", use)
-	c.SetI("form", rapid.IntRange(0, 2).Draw(t, "form"))
+	c.SetI("form", rapid.IntRange(0, 3).Draw(t, "form"))
+	c.SetI("place", []int{0, 0, 0, 1, 1, 2, 3}[rapid.IntRange(0, 6).Draw(t, "place")])
+	if rapid.IntRange(0, 3).Draw(t, "nofinalnl") == 0 {
+		c.SetI("nofinalnl", 1)
+	}
 	c.SetI("kind", rapid.IntRange(0, 1).Draw(t, "kind"))
 	c.SetI("pos", rapid.IntRange(0, n).Draw(t, "pos"))
 	c.SetI("usecont", rapid.IntRange(0, 6).Draw(t, "usecont")) // 5, 6: top level
@@ -591,7 +614,7 @@ func TestProperty(t *testing.T) {
 	}
 	harness.Run(t, harness.Plan{Prop: "C12", Suppress: findings.Suppressor("C12"), Checks: []harness.Check{
 		{Name: "resolve", Quick: 80000, Thorough: 1000000, Gen: genResolve, Prop: propResolve,
-			Rule: "history of 1-4 definitions (labels = re-spellings / edits of a base label over an alphabet with multi-character folds, interior white space runs incl. line endings, edge white space of ASCII and Unicode kinds, escaped brackets; at top level, in a quote or in a list item; with/without title; destination and title on the same or on the following line, destination bare or in angle brackets; document line endings LF, CRLF or CR) and one use (shortcut, collapsed or full; link or image) placed before, between or after them; oracle = the use resolves iff some definition's label has the same reference-normalised form, to the first such definition's destination and title; non-trivial = resolves with labels that differ as strings, a near miss (differs only by case / white-space spelling yet must not match, or vice versa), or >= 2 competing definitions"},
+			Rule: "history of 1-4 definitions (labels = re-spellings / edits of a base label over an alphabet with multi-character folds, interior white space runs incl. line endings, edge white space of ASCII and Unicode kinds, escaped brackets; at top level, in a quote or in a list item; with/without title; destination and title on the same or on the following line, destination bare or in angle brackets; document line endings LF, CRLF or CR) and one use (shortcut, collapsed, full, or full with empty link text; link or image; between words, at the end of its line, as the content of an ATX heading, possibly as the last bytes of a document without final line ending) placed before, between or after them; oracle = the use resolves iff some definition's label has the same reference-normalised form, to the first such definition's destination and title; non-trivial = resolves with labels that differ as strings, a near miss (differs only by case / white-space spelling yet must not match, or vice versa), or >= 2 competing definitions"},
 		{Name: "closure", Quick: 100000, Thorough: 1000000, Gen: func(t *rapid.T) harness.Case {
 			if rapid.IntRange(0, 9).Draw(t, "g") < 7 {
 				return harness.Case{In: genRefSoup(t)}
